@@ -344,7 +344,10 @@ func (it *intent) node(n *gen.Node) bool {
 		case "css":
 			it.w("<style>\n")
 		}
-		for _, l := range n.Lines {
+		for li, l := range n.Lines {
+			if len(l) == 0 {
+				continue // written together with the line before it, see below
+			}
 			raw := n.Filter == "plain" || n.Filter == "preserve"
 			for _, p := range l {
 				switch {
@@ -362,6 +365,11 @@ func (it *intent) node(n *gen.Node) bool {
 				default:
 					it.w(p.Static)
 				}
+			}
+			// completely empty lines that follow belong to this line's text: they stay line breaks, and only the
+			// break that ends the text is what :preserve turns into an entity
+			for k := li + 1; k < len(n.Lines) && len(n.Lines[k]) == 0; k++ {
+				it.w("\n")
 			}
 			if n.Filter == "preserve" {
 				it.w("&#x000A;")
